@@ -202,6 +202,95 @@ func intColumns(r *core.Run) {
 				}
 			}
 		}
+		// DIV and % over the same typed columns: truncation toward zero, sign of the dividend, NULL for a zero divisor
+		for _, dm := range []string{"DIV", "%"} {
+			q := fmt.Sprintf("SELECT ta.id, tb.id, ta.v %s tb.v FROM ta CROSS JOIN tb ORDER BY 1, 2", dm)
+			res := s.Exec(q)
+			if res.Panic != nil {
+				r.Violation(res.Panic.Sig(), map[string]any{"sql": q, "panic": res.Panic.Value})
+				continue
+			}
+			if res.TimedOut {
+				r.Inconclusive("timeout")
+				continue
+			}
+			judgeDM := func(x, y *big.Int, got string, q string) {
+				r.Eval(1)
+				if y.Sign() == 0 {
+					r.Distinct(fmt.Sprintf("%s|%s|%s|by-zero", dm, ta.name, tb.name))
+					if got != "NULL" {
+						r.Violation("div-by-zero-not-null:"+dm, map[string]any{"sql": q, "args": x.String() + "," + y.String(), "types": ta.name + "," + tb.name, "engine": got})
+					}
+					return
+				}
+				var exact *big.Int
+				if dm == "DIV" {
+					exact = new(big.Int).Quo(x, y)
+				} else {
+					exact = new(big.Int).Rem(x, y)
+				}
+				if got == "ERR" {
+					r.Distinct(fmt.Sprintf("%s|%s|%s|%s|error", dm, ta.name, tb.name, fitClass(exact)))
+					r.Count("divmod-error-on-typed-columns", 1)
+					return
+				}
+				gr, ok := core.Rat(got)
+				if ok && gr.IsInt() && gr.Num().Cmp(exact) == 0 {
+					r.Distinct(fmt.Sprintf("%s|%s|%s|%s|exact", dm, ta.name, tb.name, fitClass(exact)))
+					return
+				}
+				r.Violation("divmod-wrong-value:"+dm, map[string]any{"sql": q, "args": x.String() + "," + y.String(), "types": ta.name + "," + tb.name, "exact": exact.String(), "engine": got})
+			}
+			if res.Err == nil && len(res.Rows) == len(va)*len(vb) {
+				for _, row := range res.Rows {
+					judgeDM(va[toInt(row[0])], vb[toInt(row[1])], core.Canon(row[2]), q)
+				}
+				continue
+			}
+			for ka, x := range va {
+				for kb, y := range vb {
+					q1 := fmt.Sprintf("SELECT ta.v %s tb.v FROM ta CROSS JOIN tb WHERE ta.id = %d AND tb.id = %d", dm, ka, kb)
+					got := one(r, s, q1)
+					if got == "NOROW" {
+						r.Violation("arith-row-lost", map[string]any{"sql": q1})
+						continue
+					}
+					judgeDM(x, y, got, q1)
+				}
+			}
+			// column DIV/% literal and literal DIV/% column (the literal is typed by the parser, not by a column)
+			for ka, x := range va {
+				for _, y := range []*big.Int{big.NewInt(2), big.NewInt(-5), big.NewInt(3), bi("9223372036854775807")} {
+					q1 := fmt.Sprintf("SELECT v %s (%s) FROM ta WHERE id = %d", dm, y, ka)
+					judgeDM(x, y, one(r, s, q1), q1)
+					if x.Sign() != 0 {
+						q2 := fmt.Sprintf("SELECT (%s) %s v FROM ta WHERE id = %d", y, dm, ka)
+						got := one(r, s, q2)
+						// operands swapped: y is the dividend
+						func() {
+							xx, yy := y, x
+							r.Eval(1)
+							var exact *big.Int
+							if dm == "DIV" {
+								exact = new(big.Int).Quo(xx, yy)
+							} else {
+								exact = new(big.Int).Rem(xx, yy)
+							}
+							if got == "ERR" {
+								r.Count("divmod-error-on-typed-columns", 1)
+								return
+							}
+							gr, ok := core.Rat(got)
+							if ok && gr.IsInt() && gr.Num().Cmp(exact) == 0 {
+								r.Distinct(fmt.Sprintf("%s|lit|%s|exact", dm, ta.name))
+								return
+							}
+							r.Violation("divmod-wrong-value:"+dm, map[string]any{"sql": q2, "args": xx.String() + "," + yy.String(), "types": "lit," + ta.name, "exact": exact.String(), "engine": got})
+						}()
+					}
+				}
+			}
+		}
 		// unary minus on column and on literal, column op literal
 		for k, x := range va {
 			exact := new(big.Int).Neg(x)
